@@ -86,8 +86,20 @@ func analyse(prop, tier, repo string, cfg core.Config) (out childOut) {
 	}()
 	p, err := core.Load(repo, cfg)
 	if err != nil {
-		out.LoadErr = err.Error()
 		if p == nil || p.SSA == nil {
+			out.LoadErr = err.Error()
+			return out
+		}
+		// type errors matter only in the packages the property is anchored in
+		spec := rules.Registry[prop]
+		if spec.Packages == nil {
+			out.LoadErr = err.Error()
+		} else if broken := p.BrokenIn(spec.Packages); len(broken) > 0 {
+			out.LoadErr = "type errors in anchored packages: " + strings.Join(broken, "; ")
+		} else {
+			fmt.Fprintf(os.Stderr, "note: %s: module has type errors outside the packages this property is anchored in (%v): %s\n", cfg, spec.Packages, firstLine(err.Error()))
+		}
+		if out.LoadErr != "" {
 			return out
 		}
 	}
